@@ -127,6 +127,7 @@ func genC11(rng *rand.Rand, n int) SrvCase {
 	c := SrvCase{}
 	c.Cfg.Squash = []string{"root", "all", "none", "ROOT", "None"}[rng.Intn(5)]
 	c.Cfg.AttrTTL = 1
+	c.Cfg.ViaConn = rng.Intn(2) == 0 // all requests of the history on one connection, identities alternating on it
 	c.Seed = []string{"mkdir /d", "file /f " + hx([]byte("x")), "link /l f"}
 	creds := []Cred{{Flavor: 1, UID: 0, GID: 0}, {Flavor: 1, UID: 1000, GID: 1000}, {Flavor: 1, UID: 1000, GID: 0}, {Flavor: 1, UID: 0, GID: 5}, {Flavor: 0}, {Flavor: 1, UID: 65534, GID: 65534}}
 	ids := []uint32{0, 1000, 7, 65534}
@@ -174,7 +175,7 @@ func checkC11(r *Result, rng *rand.Rand, thorough bool) {
 	if thorough {
 		ncases, n = 4000, 20
 	}
-	r.Rule = "SETATTR/CREATE/MKDIR/SYMLINK with every sattr3 uid/gid combination over ids {0,7,1000,65534}, credentials {root, user, user with gid 0, root with gid 5, AUTH_NONE, nobody}, squash modes {root, all, none, mixed case}; backend Chown/Lchown arguments and recorded owners of new objects checked"
+	r.Rule = "SETATTR/CREATE/MKDIR/SYMLINK with every sattr3 uid/gid combination over ids {0,7,1000,65534}, credentials {root, user, user with gid 0, root with gid 5, AUTH_NONE, nobody}, squash modes {root, all, none, mixed case}; half of the histories sent over one record-marking connection (served by the real connection loop) with the identities alternating on it, the rest as separate HandleCall invocations; backend Chown/Lchown arguments and recorded owners of new objects checked"
 	for i := 0; i < ncases; i++ {
 		c := genC11(rng, 3+rng.Intn(n))
 		vs := judgeC11(c)
